@@ -202,6 +202,26 @@ theorem World.get_storeMeta_self_of_ne (w : World) (hen : w.enabled = true) (k s
 @[simp] theorem World.enabled_remove (w : World) (k : Str) : (w.remove k).enabled = w.enabled := rfl
 @[simp] theorem World.enabled_log (w : World) (c : Str) : (w.log c).enabled = w.enabled := rfl
 
+/-! ### conditional progress metadata: evaluations on `NoCache` (`useCache = false`) write none -/
+
+/-- `if useCache then cache.store_metadata(...)` -/
+def World.metaIf (w : World) (uc : Bool) (k st : Str) : World := if uc then w.storeMeta k st else w
+
+@[simp] theorem World.metaIf_true (w : World) (k st : Str) : w.metaIf true k st = w.storeMeta k st := rfl
+@[simp] theorem World.metaIf_false (w : World) (k st : Str) : w.metaIf false k st = w := rfl
+@[simp] theorem World.calls_metaIf (w : World) (uc : Bool) (k st : Str) : (w.metaIf uc k st).calls = w.calls := by
+  cases uc <;> simp
+@[simp] theorem World.enabled_metaIf (w : World) (uc : Bool) (k st : Str) : (w.metaIf uc k st).enabled = w.enabled := by
+  cases uc <;> simp
+@[simp] theorem World.mkd_metaIf (w : World) (uc : Bool) (k st : Str) :
+    (w.metaIf uc k st).metaKeepsData = w.metaKeepsData := by
+  cases uc <;> simp
+theorem World.dataAt_metaIf {w : World} {uc : Bool} {k status k' : Str} {s : EState}
+    (h : (w.metaIf uc k status).dataAt k' = some s) : w.dataAt k' = some s := by
+  cases uc
+  · exact h
+  · exact World.dataAt_storeMeta h
+
 /-! ### a disabled global cache (`NoCache()`) stays without data -/
 
 /-- the global cache is `NoCache()`: disabled and without data -/
@@ -209,6 +229,10 @@ def World.NoCache (w : World) : Prop := w.enabled = false ∧ w.NoData
 
 theorem World.NoCache.storeMeta {w : World} (h : w.NoCache) (k st : Str) : (w.storeMeta k st).NoCache := by
   unfold World.storeMeta; split <;> (rw [World.put_disabled h.1]; exact h)
+theorem World.NoCache.metaIf {w : World} (h : w.NoCache) (uc : Bool) (k st : Str) : (w.metaIf uc k st).NoCache := by
+  cases uc
+  · exact h
+  · exact h.storeMeta k st
 theorem World.NoCache.store {w : World} (h : w.NoCache) (st : EState) : (w.store st).NoCache := by
   unfold World.store; rw [World.put_disabled h.1]; exact h
 theorem World.NoCache.remove {w : World} (h : w.NoCache) (k : Str) : (w.remove k).NoCache := by
@@ -235,6 +259,10 @@ theorem Sound.clean {env : Env} (w : World) : Sound env { w with cache := [] } :
 theorem Sound.storeMeta {env : Env} {w : World} (h : Sound env w) (k status : Str) :
     Sound env (w.storeMeta k status) :=
   fun k' st hd => h k' st (World.dataAt_storeMeta hd)
+
+theorem Sound.metaIf {env : Env} {w : World} (h : Sound env w) (uc : Bool) (k status : Str) :
+    Sound env (w.metaIf uc k status) :=
+  fun k' st hd => h k' st (World.dataAt_metaIf hd)
 
 theorem Sound.remove {env : Env} {w : World} (h : Sound env w) (k : Str) : Sound env (w.remove k) := by
   intro k' st hd
